@@ -2184,3 +2184,170 @@ twin('C08', 'undolog-recheck-split', FSPY, 'FileStorage.undoLog',
                     raise UndoError(
                         'Undo is currently disabled for database '
                         'maintenance.<p>')''')
+
+# ---- round 5 rules ---------------------------------------------------------
+breaker('C17', 'copy-skips-dataless-records', 'C17.R13', BSPY, 'copy',
+        '''            oid = r.oid
+            if verbose:''',
+        '''            oid = r.oid
+            if r.data is None:
+                continue
+            if verbose:''')
+twin('C17', 'copy-verbose-branch-for-dataless', BSPY, 'copy',
+     '''            oid = r.oid
+            if verbose:
+                print(oid_repr(oid), r.version, len(r.data))''',
+     '''            oid = r.oid
+            if verbose and r.data is None:
+                print(oid_repr(oid), r.version, 'no data')
+            elif verbose:
+                print(oid_repr(oid), r.version, len(r.data))''')
+breaker('C17', 'recover-skips-records', 'C17.R13', RECPY, 'recover',
+        '''                ofs.restore(r.oid, r.tid, r.data, '', r.data_txn,
+                            txn)
+                nrec += 1''',
+        '''                if r.data is not None or r.data_txn:
+                    ofs.restore(r.oid, r.tid, r.data, '', r.data_txn,
+                                txn)
+                nrec += 1''')
+
+breaker('C01', 'cp-clamp-hoisted', 'C01.R8', UTILPY, 'cp',
+        '''    while length > 0:
+        if n > length:
+            n = length
+        data = read(n)''',
+        '''    if n > length:
+        n = length
+    while length > 0:
+        data = read(n)''')
+breaker('C01', 'cp-clamp-dropped', 'C01.R8', UTILPY, 'cp',
+        '''        if n > length:
+            n = length
+        data = read(n)''',
+        '''        data = read(n)''')
+twin('C01', 'cp-clamp-min', UTILPY, 'cp',
+     '''        if n > length:
+            n = length
+        data = read(n)''',
+     '''        n = min(n, length)
+        data = read(n)''')
+twin('C01', 'cp-clamp-inline', UTILPY, 'cp',
+     '''        if n > length:
+            n = length
+        data = read(n)''',
+     '''        data = read(min(bufsize, length))''')
+
+breaker('C05', 'undo-abort-releases-instance', 'C05.R7', DBPY,
+        'TransactionalUndo.abort',
+        '''        pass''',
+        '''        self.close()''')
+breaker('C05', 'undo-vote-failure-releases-instance', 'C05.R7', DBPY,
+        'TransactionalUndo.tpc_vote',
+        '''        transaction = transaction.data(self)
+        self._storage.tpc_vote(transaction)''',
+        '''        transaction = transaction.data(self)
+        try:
+            self._storage.tpc_vote(transaction)
+        except BaseException:
+            self.close()
+            raise''')
+twin('C05', 'undo-tpc-abort-guarded', DBPY, 'TransactionalUndo.tpc_abort',
+     '''            transaction = transaction.data(self)
+            self._storage.tpc_abort(transaction)''',
+     '''            if self._storage is not None:
+                transaction = transaction.data(self)
+                self._storage.tpc_abort(transaction)''')
+
+breaker('C09', 'open-index-bypasses-initindex', 'C09.R9', FSPY,
+        'FileStorage.__init__',
+        '''            index, start, ltid = r
+
+            self._initIndex(index, tindex)''',
+        '''            index, start, ltid = r
+
+            self._index = index''')
+breaker('C09', 'pack-installs-index-directly', 'C09.R9', FSPY,
+        'FileStorage.pack',
+        '''                    self._initIndex(index, self._tindex)''',
+        '''                    self._index = index''')
+twin('C09', 'initindex-reordered', FSPY, 'FileStorage._initIndex',
+     '''        self._index = index
+        self._tindex = tindex
+        self._index_get = index.get''',
+     '''        self._index_get = index.get
+        self._index = index
+        self._tindex = tindex''')
+
+breaker('C12', 'blob-open-takes-committed-file', 'C13.R4', BLOBPY,
+        'Blob.open',
+        '''                    result = BlobFile(self._p_blob_uncommitted, mode, self)
+                    if self._p_blob_committed:
+                        with open(self._p_blob_committed, 'rb') as fp:
+                            utils.cp(fp, result)''',
+        '''                    committed = self._p_blob_committed
+                    if committed and committed.endswith(SAVEPOINT_SUFFIX):
+                        os.replace(committed, self._p_blob_uncommitted)
+                        committed = None
+                    result = BlobFile(self._p_blob_uncommitted, mode, self)
+                    if committed:
+                        with open(committed, 'rb') as fp:
+                            utils.cp(fp, result)''')
+
+breaker('C12', 'tmpstore-store-without-seek', 'C12.R6', CONNPY,
+        'TmpStore.store',
+        '''        self._file.seek(self.position)
+        lenght = len(data)''',
+        '''        lenght = len(data)''')
+twin('C12', 'tmpstore-store-single-write', CONNPY, 'TmpStore.store',
+     '''        self._file.write(header)
+        self._file.write(data)''',
+     '''        self._file.write(header + data)''')
+breaker('C12', 'tmpstore-removes-superseded-blob', 'C12.R6', CONNPY,
+        'TmpStore.storeBlob',
+        '''        serial = self.store(oid, serial, data, '', transaction)
+''',
+        '''        previous = oid in self.index and self._getCleanFilename(
+            oid, serial or z64)
+        serial = self.store(oid, serial, data, '', transaction)
+        if previous and os.path.exists(previous):
+            os.remove(previous)
+''')
+
+breaker('C13', 'same-bytes-end-before-compare', 'C13.R14', FSPY,
+        'FileStorage._blob_same_bytes',
+        '''                        if d1 != f2.read(1 << 16):
+                            return False
+                        if not d1:
+                            return True''',
+        '''                        if not d1:
+                            return True
+                        if d1 != f2.read(1 << 16):
+                            return False''')
+twin('C13', 'same-bytes-two-locals', FSPY, 'FileStorage._blob_same_bytes',
+     '''                        d1 = f1.read(1 << 16)
+                        if d1 != f2.read(1 << 16):
+                            return False''',
+     '''                        d1 = f1.read(1 << 16)
+                        d2 = f2.read(1 << 16)
+                        if d1 != d2:
+                            return False''')
+
+breaker('C06', 'undo-skips-check-for-bare-pointer', 'C06.R9', FSPY,
+        'FileStorage._transactionalUndoRecord',
+        '''            if cdataptr != pos:
+''',
+        '''            if cdataptr != pos and (current_data or not tpos):
+''')
+twin('C06', 'undo-pointer-test-negated', FSPY,
+     'FileStorage._transactionalUndoRecord',
+     '''            if cdataptr != pos:
+''',
+     '''            if not (cdataptr == pos):
+''')
+
+breaker('C02', 'abort-flushes-pool-before-truncate', 'C05.R2', FSPY,
+        'FileStorage._abort',
+        '''            self._file.truncate(self._pos)
+            self._files.flush()''',
+        '''            self._files.flush()
+            self._file.truncate(self._pos)''')
